@@ -48,7 +48,7 @@ pub fn main(tier: Option<&str>) {
         "universe of 64 addresses (8 peers, 8 chunk, 8 transaction, 4 register, 4 scratchpad addresses and each of these 32 again as a raw \
          record key): all 4096 ordered pairs for the distance value, symmetry, zero-iff-equal and typed==raw; all 1024 subsets of a 10-peer \
          list x 5 targets (two of them equal to a listed peer's address, typed and raw) for the sorters; every range bound in {d-1,d,d+1 : d pairwise distance} + {0,MAX} for the range filters; every \
-         requested count 0..=12; the number of records a real record store counts within every range bound d-1/d+1 (after writes, updates, a removal) for closest-peer selection; the replication fetcher's full-node bound at each of 6 ranked keys x {single key / six-key list, new / held in another version, in flight when the bound arrives}. Non-trivial = the two addresses differ.",
+         requested count 0..=12; the number of records a real record store counts within every range bound d-1/d+1 (after writes, updates, a removal) for closest-peer selection; the replication fetcher's full-node bound at each of 6 ranked keys x {single key / six-key list, new / held in another version, in flight when the bound arrives}; a real SwarmDriver's own K closest local peers and its replication candidates for every range bound, on routing tables of 10 and of >= 30 peers (119 offered) met in three orders (as listed, reversed, farthest first). Non-trivial = the two addresses differ.",
     );
     run.assume("256-bit space covered through this universe only; reference = SHA-256 (sha2 crate) of the address bytes, XOR, big-endian");
     let uni = universe();
@@ -260,10 +260,20 @@ pub fn main(tier: Option<&str>) {
 
     // 4. replication candidates chosen by a real SwarmDriver whose routing table holds (a) the 10 peers, (b) as many of
     //    119 further peers as its k-buckets take (more than K_VALUE = 20, so that a range can hold more than 20 peers)
-    for big in [false, true] {
+    for (big, order) in [(false, 0usize), (true, 0), (false, 1), (true, 1), (false, 2), (true, 2)] {
         let root = crate::c01::fresh_scratch("c11");
         let mut rig = crate::driver_rig::DriverRig::new_node(1, &root);
-        let offered: Vec<PeerId> = if big { (2u8..=120).map(rigs::fixtures::peer_id).collect() } else { peers.clone() };
+        let mut offered: Vec<PeerId> = if big { (2u8..=120).map(rigs::fixtures::peer_id).collect() } else { peers.clone() };
+        // the order in which the node met its peers (a k-bucket keeps its entries in the order they arrived): as listed,
+        // reversed, farthest first
+        match order {
+            1 => offered.reverse(),
+            2 => {
+                let me_b = NetworkAddress::from_peer(rig.peer_id()).as_bytes();
+                offered.sort_by_key(|p| std::cmp::Reverse(xor_distance(&me_b, &NetworkAddress::from_peer(*p).as_bytes())));
+            }
+            _ => {}
+        }
         let mut peers: Vec<PeerId> = vec![];
         for (i, p) in offered.iter().enumerate() {
             // a full k-bucket refuses the insert: only peers that got in are known
@@ -275,6 +285,25 @@ pub fn main(tier: Option<&str>) {
             run.machinery_error(&format!("C11 section 4: only {} of {} peers entered the routing table", peers.len(), offered.len()));
         }
         let me = NetworkAddress::from_peer(rig.peer_id());
+        // the node's own neighbourhood — itself and the K_VALUE - 1 nearest peers it knows, nearest first — is what the
+        // responsible range, the payee check, the replication-list sender check and the storage challenge are read from
+        {
+            let mut reference: Vec<PeerId> = peers.clone();
+            reference.sort_by_key(|p| xor_distance(&me.as_bytes(), &NetworkAddress::from_peer(*p).as_bytes()));
+            let mut want: Vec<PeerId> = vec![rig.peer_id()];
+            want.extend(reference.into_iter().take(19));
+            let got = rig.driver.verif_closest_k_value_local_peers();
+            run.case(format!("closest-k-local:{big}:{order}").as_bytes(), true);
+            if got != want {
+                let first_bad = got.iter().zip(want.iter()).position(|(a, b)| a != b).unwrap_or(got.len().min(want.len()));
+                run.violation(
+                    "closest-peers",
+                    "closest-k-local-peers",
+                    format!("the node's K closest local peers ({} known, met in order {order}): {} returned, {} expected (self, then the 19 nearest in ascending distance); they differ from position {first_bad}", peers.len(), got.len(), want.len()),
+                    json!({"op":"closest-k-local-peers","known_peers":peers.len(),"insertion_order":order}),
+                );
+            }
+        }
         for t in [&me, targets[0], targets[1]] {
             let mut reference: Vec<PeerId> = peers.clone();
             reference.sort_by_key(|p| xor_distance(&t.as_bytes(), &NetworkAddress::from_peer(*p).as_bytes()));
@@ -290,7 +319,7 @@ pub fn main(tier: Option<&str>) {
                 let got = rig.driver.verif_get_replicate_candidates(t);
                 let in_range: Vec<PeerId> = reference.iter().zip(dists.iter()).filter(|(_, d)| **d <= b).map(|(p, _)| *p).collect();
                 let want: Vec<PeerId> = if in_range.len() >= CLOSE_GROUP_SIZE { in_range } else { reference.iter().take(CLOSE_GROUP_SIZE).cloned().collect() };
-                run.case(format!("candidates:{big}:{t:?}:{b}").as_bytes(), true);
+                run.case(format!("candidates:{big}:{order}:{t:?}:{b}").as_bytes(), true);
                 if got != want {
                     run.violation(
                         "replication-candidates",
